@@ -128,6 +128,7 @@ def main(tier, replay=None):
                 q = with_marker(pr, where, rng)
                 if q is not None:
                     schemas.append((where, q))
+        schemas.append(("same-bare-names", gen.same_names_program()))
         for si, (where, pr) in enumerate(schemas):
             d = scratch.sub()
             main_path, paths = render.write_program(pr, d)
@@ -136,11 +137,14 @@ def main(tier, replay=None):
             fsets = [None, [], [names[0]], names[:2], [names[-1]], ["Nonexistent"], [names[0], "Nonexistent"]]
             if tier != "quick":
                 fsets += [rng.sample(names, rng.randint(1, len(names))) for _ in range(3)]
+            if where == "same-bare-names":
+                tops = ["Lamp", "Motor", "Top"]
+                fsets = [None] + [[n_ for i_, n_ in enumerate(tops) if m_ >> i_ & 1] for m_ in range(1, 8)] + [["Cfg"]]
             for lang, O, F, endian, check in itertools.product(
                     ("c", "go", "py"), (False, True), fsets, ("both", "little", "big"), (False,)):
                 if endian != "both" and not (lang == "c" and O):
                     continue
-                if where != "none" and F not in (None, [names[0]]):
+                if where not in ("none", "same-bare-names") and F not in (None, [names[0]]):
                     continue
                 out = os.path.join(d, "o_%d" % len(jobs))
                 os.makedirs(out)
